@@ -162,6 +162,9 @@ class GenX(F.Gen):
             if s['s'] == 'if' and len(s['conds']) > 1 and 'fnelseif' not in self.f and \
                     any(c['f'] in self.user_functions for c in call_exprs(s['conds'][1:])):
                 return False
+            if s['s'] == 'if' and s.get('inline') and 'fninlineif' not in self.f and \
+                    any(c['f'] in self.user_functions for c in call_exprs(s['bodies'])):
+                return False      # one-line IF whose statement references a function: slice of its own
             if s['s'] == 'print' and self.no_print:
                 return False
             if s['s'] == 'print' and 'printrefs' not in self.f and \
@@ -183,6 +186,27 @@ class GenX(F.Gen):
             fc = self.rng.choice(self.fn_leaves)(self, ['w', 'n', 'm'])
             cond = op('and', cmp_('<', V('w'), N(self.rng.randint(1, 3))), cmp_(self.rng.choice(['<', '>=', '/=']), fc, N(self.rng.choice([1, 2, 3]))))
             return [assign(V('w'), N(0)), {'s': 'while', 'cond': cond, 'body': body}]
+        if self.fn_leaves and self.ck == 'kernel' and self.rng.random() < 0.3:
+            # constructs that need a function reference in a particular place
+            rng, scal = self.rng, self.int_scalars_noarr
+            writable = [v for v in self.int_writable if v not in self.active_loops and not v.startswith('z')]
+            fc = lambda: rng.choice(self.fn_leaves)(self, scal)      # noqa: E731
+            opts = []
+            if 'fninlineif' in self.f:
+                opts.append('inlineif')
+            if 'fnelseif' in self.f:
+                opts.append('elseif')
+            if 'printrefs' in self.f:
+                opts.append('print')
+            if opts:
+                o = rng.choice(opts)
+                if o == 'inlineif':
+                    return [{'s': 'if', 'conds': [self.cond(scal)], 'bodies': [[assign(V(rng.choice(writable)), self.bounded(op('sum', fc(), self.int_leaf(scal))))]],
+                             'els': [], 'inline': True}]
+                if o == 'elseif':
+                    return [{'s': 'if', 'conds': [self.cond(scal), cmp_(rng.choice(['<', '>=']), fc(), N(rng.choice([1, 2, 3])))],
+                             'bodies': [self.block(d - 1, 1), self.block(d - 1, 1)], 'els': self.block(d - 1, 1) if rng.random() < 0.5 else []}]
+                return [{'s': 'print', 'items': [op('sum', fc(), N(1))]}]
         for _ in range(20):
             ss = super().stmt(d)
             if self.acceptable(ss):
@@ -253,6 +277,9 @@ class GenX(F.Gen):
         sub.p_extra = 0.12 if sub.leaf_extra else 0.0
         sub.nest_marked = self.nest_marked
         body = sub.block(depth, nstmts)
+        if roles.get('k') in (D, 'RES'):
+            # the result depends on the arguments (otherwise misplaced evaluations go unnoticed)
+            body.append(assign(V('k'), sub.bounded(op('sum', V('k'), V('n'), sub.int_expr(1, sub.int_scalars)))))
         if ck == 'modsub' and 'return' in self.f and rng.random() < 0.4:
             body.insert(rng.randrange(len(body) + 1), {'s': 'if', 'conds': [cmp_(rng.choice(['<', '>']), V('n'), N(rng.choice([0, 2])))],
                                                        'bodies': [[{'s': 'return'}]], 'els': [], 'inline': True})
@@ -506,6 +533,10 @@ class GenX(F.Gen):
         sub.leaf_extra = [h['mkleaf'] for h in (earlier if 'sfnest' in self.f else [])] + [h['mkleaf'] for h in funs] + list(self.const_leaves)
         sub.p_extra = 0.2 if sub.leaf_extra else 0.0
         e = sub.int_expr(2, ['sa', 'sb', 'sa', 'n', 'm', 't1'])
+        if e['k'] in ('var', 'int', 'arr', 'call', 'neg') and 'sfbare' not in self.f:
+            e = op('sum', e, V('sa'))       # a bare variable as right-hand side is a construct of its own (slice stmtfunc-bare)
+        elif 'sfbare' in self.f and self.rng.random() < 0.5:
+            e = V(self.rng.choice(['sa', 'n']))
         nargs = 2 if 'sb' in mentions(e) else 1
         args = ['sa', 'sb'][:nargs]
         u = unit(name, args, [decl(a, 'int', 'in') for a in args] + [decl(name + 'r', 'int')], [assign(V(name + 'r'), e)],
@@ -1016,6 +1047,8 @@ def _ctx_of_calls(ss, names, acc, ctx='top'):
             for i, c in enumerate(s['conds']):
                 if has(c):
                     acc.add('ctx=if' if i == 0 else 'ctx=elseif')
+            if s.get('inline') and has(s['bodies']):
+                acc.add('ctx=inline-if')
             for b in s['bodies']:
                 _ctx_of_calls(b, names, acc)
             _ctx_of_calls(s['els'], names, acc)
